@@ -358,11 +358,17 @@ def QEF.solveBounded {n : Nat} (solver : Solver α) (q : QEF n α) (region : Reg
   selectBounded 0 (q.solve solver tpos tval)
     (fun nb => q.solveConstrained solver region_ nb tpos tval) region_
 
+/-- default `target_value` of the 2-argument `solveBounded`:
+    `(AtA(N, N) != 0.0) ? (AtBp(N, N) / AtA(N, N)) : 0.0`
+    (an empty QEF has `AtA(N,N) == 0`; before commit e5a8679 this was the bare quotient, 0/0). -/
+def QEF.defaultTargetValue {n : Nat} (q : QEF n α) : α :=
+  if !QOrd.eq (q.AtA (Fin.last n) (Fin.last n)) 0 then q.averageDistanceValue else 0
+
 /-- `solveBounded(region, shrink = 1 - 1e-9)`: minimise towards the centre of the region and
-    the average distance value `AtBp(N,N) / AtA(N,N)`. -/
+    the average distance value (0 for an empty QEF). -/
 def QEF.solveBoundedDefault {n : Nat} (solver : Solver α) (q : QEF n α) (region : Region n α)
     (shrink : α) : Solution n α :=
-  q.solveBounded solver region shrink region.center q.averageDistanceValue
+  q.solveBounded solver region shrink region.center q.defaultTargetValue
 
 end top
 
